@@ -30,7 +30,7 @@ fn gen_prog(t: &mut Tape, st: &mut Stats) -> Prog {
             Prog { text, kind: Kind::Scripted, on_error: t.flip() }
         }
         k => {
-            let p = gen_program(t, GenCfg { functions: false, failures: false, max_depth: 4, max_stmts: 30 });
+            let p = gen_program(t, GenCfg { functions: false, failures: false, max_depth: 4, max_stmts: 30, long_loops: false });
             let r = render(&p, t, false);
             if k == 1 {
                 Prog { text: r.text, kind: Kind::Structured, on_error: false }
